@@ -160,6 +160,8 @@ class C01(PropertyCheck):
             return [
                 {"op": "c01.array1d", "dir": "slim_from", "bits": case["bits"], "values": case["native"]},
                 {"op": "c01.array1d", "dir": "native_for_slim", "bits": case["bits"], "values": []},
+                {"op": "c01.array1d", "dir": "native_from", "bits": case["bits"],
+                 "values": [v for v, b in zip(case["native"], case["bits"]) if b == "0"]},
             ]
         op = "c01.array_convert" if kind == "array" else "c01.grid_convert"
         return [{"op": op, "mask": case["mask"], "form": case["form"],
@@ -174,7 +176,8 @@ class C01(PropertyCheck):
             return {"native_for_slim": responses[0]["ok"], "unmasked_slim": responses[1]["ok"],
                     "masked_slim": responses[2]["ok"], "pixels_in_mask": responses[3]["ok"]}
         if kind == "1d":
-            return {"slim": responses[0]["ok"], "nfs": responses[1]["ok"]}
+            return {"slim": responses[0]["ok"], "nfs": responses[1]["ok"],
+                    "native_back": responses[2]["ok"]}
         r = responses[0]["ok"]
         st = r["stored"]
         return {"stored": st["stored"] if isinstance(st, dict) else st, "slim": r["slim"],
@@ -185,7 +188,8 @@ class C01(PropertyCheck):
             if "err" in impl_obs:
                 return cmp.diff(impl_obs, model_obs)
             # the model's 1-D scatter is exercised through a second request pair below
-            sub = {"slim": impl_obs["slim"], "nfs": impl_obs["nfs"]}
+            sub = {"slim": impl_obs["slim"], "nfs": impl_obs["nfs"],
+                   "native_back": impl_obs["native_back"]}
             return cmp.diff(sub, model_obs)
         return cmp.diff(impl_obs, model_obs)
 
